@@ -1,5 +1,6 @@
 import SpecKitV.Lemmas.Bilinear
 import SpecKitV.Lemmas.FftNoise
+import SpecKitV.Props.NoiseGen
 
 #print axioms bilinear_section
 #print axioms bilinear_dc
@@ -20,3 +21,4 @@ import SpecKitV.Lemmas.FftNoise
 #print axioms fftfreqAbs_eq
 #print axioms sectionCorners_ratio
 #print axioms sectionCorners_step
+#print axioms gen_filter_coeffs_eq_model
